@@ -22,10 +22,16 @@ func djump(pc ProgramCounter, a uint32, jumpTable JumpTable, bitmask Bitmask) (E
 		return ExitPanic, pc
 	}
 	index := a/ZA - 1 // GP,  if  ZA > 1, index = ZA*index
-	dest, _, err := ReadUintFixed(jumpTable.Data[index*jumpTable.Length:], int(jumpTable.Length))
-	if err != nil {
-		// memory corruption?
-		panic(err.Error())
+	// E_z^-1 of the entry, for any entry width z the blob declares. A value that does not fit
+	// the 32-bit program counter is not the start of a basic block.
+	entry := jumpTable.Data[index*jumpTable.Length:][:jumpTable.Length]
+	var dest uint64
+	for i, b := range entry {
+		if i < 4 {
+			dest |= uint64(b) << (8 * i)
+		} else if b != 0 {
+			return ExitPanic, pc
+		}
 	}
 
 	newPC := ProgramCounter(dest)
